@@ -110,12 +110,17 @@ def make_config(policy):
     return cfg
 
 
-def new_path(policy=("collect",), delimiter=",", quotechar='"', printer=True, print_default=False):
+def new_path(policy=("collect",), delimiter=",", quotechar='"', printer=True, print_default=False, post_policy=None):
     from csvpath import CsvPath
     from csvpath.util.printer import TestPrinter
 
-    cfg = make_config(policy)
-    p = CsvPath(config=cfg, delimiter=delimiter, quotechar=quotechar, print_default=print_default)
+    if post_policy is not None:
+        # the CsvPath is built from whatever config.ini says and the policy is assigned to its config AFTERWARDS
+        p = CsvPath(delimiter=delimiter, quotechar=quotechar, print_default=print_default)
+        p.config.csvpath_errors_policy = list(post_policy)
+    else:
+        cfg = make_config(policy)
+        p = CsvPath(config=cfg, delimiter=delimiter, quotechar=quotechar, print_default=print_default)
     tp = None
     if printer:
         tp = TestPrinter()
@@ -153,11 +158,11 @@ def observe(p, tp=None, lines=None, exc=None, stdout=None):
     return o
 
 
-def run_csvpath(text, method="collect", policy=("collect",), delimiter=",", quotechar='"', nexts=None, steps=None, print_default=False):
+def run_csvpath(text, method="collect", policy=("collect",), delimiter=",", quotechar='"', nexts=None, steps=None, print_default=False, post_policy=None):
     """Run one csvpath text (with the file path embedded) on a fresh CsvPath.
     method: collect | next | fast_forward.  nexts: for collect(nexts=n).  steps: for next, stop after n yields.
     """
-    p, tp = new_path(policy, delimiter, quotechar, print_default=print_default)
+    p, tp = new_path(policy, delimiter, quotechar, print_default=print_default, post_policy=post_policy)
     lines = None
     kept = []
     exc = None
